@@ -54,7 +54,12 @@ func runOp(st *State, line string) (res string) {
 	if !ok {
 		return "unknown-op"
 	}
-	return f(st, toks[1:])
+	res = f(st, toks[1:])
+	if len(retainPending) > 0 { // byte slices the library handed out during this op (retainNote)
+		res += retainCheck(retainPending...)
+		retainPending = nil
+	}
+	return res
 }
 
 func main() {
